@@ -3,13 +3,16 @@ package checks
 import (
 	"encoding/json"
 	"fmt"
+	"sort"
 	"strings"
 
 	"github.com/mit-pdos/go-journal/vrt"
 	"verif/fsx"
+	"verif/fsck"
 	"verif/par"
 	"verif/reffs"
 	"verif/report"
+	"verif/vdisk"
 )
 
 // ---- C09: a failed operation leaves no trace (differential) ----
@@ -63,8 +66,10 @@ func c09Suffix() []fsx.Op {
 
 type c09Arg struct {
 	Disk uint64   `json:"disk"`
+	Prep string   `json:"prep,omitempty"` // start from this prepared state instead of a fresh disk
 	Path []fsx.Op `json:"path"`
 	L    int      `json:"l"`
+	Only int      `json:"only,omitempty"` // just this candidate (index+1); 0: all
 }
 
 type c09Res struct {
@@ -77,6 +82,7 @@ type c09Res struct {
 type c09Obs struct {
 	dump   string
 	nohand string
+	disk   string // the file system's own records on the (logical) disk: see diskSummary
 	fb, fi uint64
 	errs   []string
 	status []uint32
@@ -84,11 +90,23 @@ type c09Obs struct {
 }
 
 // run path (+cand) (+suffix) on a fresh instance and observe
-func c09Run(disk uint64, ops []fsx.Op, audit bool) (c09Obs, vrt.Result) {
+func c09Run(a c09Arg, ops []fsx.Op, audit bool) (c09Obs, vrt.Result) {
 	var o c09Obs
-	img := cachedMkfs(disk)
-	res := vrt.Run(vrt.Config{Horizon: 3_000_000}, func() {
-		w := NewWorld(img)
+	var img *vdisk.Image
+	var prep *Prepared
+	hz := 3_000_000
+	if a.Prep != "" {
+		prep, hz = prepared(a.Prep), 100_000_000
+	} else {
+		img = cachedMkfs(a.Disk)
+	}
+	res := vrt.Run(vrt.Config{Horizon: hz}, func() {
+		var w *World
+		if prep != nil {
+			w = prep.World()
+		} else {
+			w = NewWorld(img)
+		}
 		w.Model.AllowImplFail = true
 		for _, op := range ops {
 			if !w.Enabled(op) {
@@ -113,8 +131,9 @@ func c09Run(disk uint64, ops []fsx.Op, audit bool) (c09Obs, vrt.Result) {
 		}
 		o.nohand = fsx.DumpString(d)
 		o.fb, o.fi = w.FreeCounts()
+		fr := w.Fsck()
+		o.disk = diskSummary(fr)
 		if audit {
-			fr := w.Fsck()
 			for _, e := range fr.Errors {
 				o.errs = append(o.errs, "fsck|"+e)
 			}
@@ -130,11 +149,44 @@ func c09Run(disk uint64, ops []fsx.Op, audit bool) (c09Obs, vrt.Result) {
 	return o, res
 }
 
+// diskSummary is what the file system records about itself on the logical disk, without times and without
+// block numbers (which block an allocation gets may depend on aborted attempts): per inode in use its kind,
+// link count, generation, size, pending-shrink size and number of blocks; per directory its entries with
+// their slots.  A request that fails must leave it as it was - also the parts no reply shows (the link count
+// decides whether the inode is ever freed).
+func diskSummary(fr *fsck.Result) string {
+	var inums []uint64
+	for i := range fr.InUse {
+		inums = append(inums, i)
+	}
+	sort.Slice(inums, func(a, b int) bool { return inums[a] < inums[b] })
+	nblk := map[uint64]int{}
+	for _, owner := range fr.Owned {
+		nblk[owner]++
+	}
+	var b strings.Builder
+	for _, i := range inums {
+		ip := fr.InUse[i]
+		fmt.Fprintf(&b, "inode %d kind %d nlink %d gen %d size %d shrinksize %d blocks %d\n", i, ip.Kind, ip.Nlink, ip.Gen, ip.Size, ip.ShrinkSize, nblk[i])
+		if ents, ok := fr.Dirs[i]; ok {
+			var names []string
+			for n := range ents {
+				names = append(names, n)
+			}
+			sort.Strings(names)
+			for _, n := range names {
+				fmt.Fprintf(&b, "  dir %d entry %q -> %d at %d\n", i, n, ents[n].Inum, ents[n].Off)
+			}
+		}
+	}
+	return b.String()
+}
+
 func c09Job(raw json.RawMessage) (interface{}, error) {
 	var a c09Arg
 	json.Unmarshal(raw, &a)
 	out := &c09Res{}
-	base, bres := c09Run(a.Disk, a.Path, false)
+	base, bres := c09Run(a, a.Path, false)
 	out.Runs++
 	if bres.Verdict != vrt.VOK || !base.ok {
 		if v := VerdictViolation(&bres, "C09", "state"); v != nil && len(a.Path) == 0 {
@@ -147,13 +199,16 @@ func c09Job(raw json.RawMessage) (interface{}, error) {
 		cc.As = ""
 		return cc.String()
 	}
-	for _, c := range c09Candidates() {
+	for ci, c := range c09Candidates() {
+		if a.Only != 0 && a.Only != ci+1 {
+			continue
+		}
 		full := append(append([]fsx.Op{}, a.Path...), c)
 		viol := func(sig, detail string) {
-			out.Viols = append(out.Viols, &report.Violation{Property: "C09", Sig: sig + "|" + class(c), Detail: fmt.Sprintf("disk of %d blocks, state reached by: %s\nfailing request: %s\n%s", a.Disk, fsx.Hist(a.Path), c, detail),
+			out.Viols = append(out.Viols, &report.Violation{Property: "C09", Sig: sig + "|" + class(c), Detail: fmt.Sprintf("disk of %d blocks %s, state reached by: %s\nfailing request: %s\n%s", a.Disk, a.Prep, fsx.Hist(a.Path), c, detail),
 				Replay: map[string]interface{}{"job": "c09", "arg": a}})
 		}
-		wc, res := c09Run(a.Disk, full, true)
+		wc, res := c09Run(a, full, true)
 		out.Runs++
 		out.Transitions++
 		if v := VerdictViolation(&res, "C09", class(c)); v != nil {
@@ -173,6 +228,10 @@ func c09Job(raw json.RawMessage) (interface{}, error) {
 			viol("failed-op-changed-tree", fmt.Sprintf("the request returned status %d, yet the dump differs from the one without it:\n%s", st, firstDiff(wc.dump, base.dump)))
 			continue
 		}
+		if wc.disk != base.disk {
+			viol("failed-op-changed-disk", fmt.Sprintf("the request returned status %d, yet the inodes / directory entries on disk differ from the run without it:\n%s", st, firstDiff(wc.disk, base.disk)))
+			continue
+		}
 		if wc.fb != base.fb || wc.fi != base.fi {
 			viol("failed-op-consumed-space", fmt.Sprintf("the request returned status %d; free blocks %d -> %d, free inodes %d -> %d", st, base.fb, wc.fb, base.fi, wc.fi))
 			continue
@@ -181,8 +240,8 @@ func c09Job(raw json.RawMessage) (interface{}, error) {
 		var rec func(suf []fsx.Op, l int) bool
 		rec = func(suf []fsx.Op, l int) bool {
 			if len(suf) > 0 {
-				x, rx := c09Run(a.Disk, append(append([]fsx.Op{}, full...), suf...), true)
-				y, ry := c09Run(a.Disk, append(append([]fsx.Op{}, a.Path...), suf...), false)
+				x, rx := c09Run(a, append(append([]fsx.Op{}, full...), suf...), true)
+				y, ry := c09Run(a, append(append([]fsx.Op{}, a.Path...), suf...), false)
 				out.Runs += 2
 				out.Transitions += int64(len(suf))
 				if v := VerdictViolation(&rx, "C09", class(c)); v != nil {
@@ -224,7 +283,7 @@ func C09(r *report.Report, tier string) {
 		depth, L = 3, 2
 		disks = []uint64{1541, 1542, 1543, 1544, 1545, 1546, 1550, 3000}
 	}
-	r.Rule = fmt.Sprintf("differential, no expected values: on disks with 1..N free data blocks and on a large one, every state reached by <=%d operations of a building alphabet (incl. filling a directory block and filling the disk), every request of a %d-element list of candidates that fail part-way (rename whose target directory cannot grow, create/mkdir/symlink without space or with refused names, writes that run out of blocks after an indirect block, oversized requests, hole-filling reads without space, dead handles, non-empty directories): if it returns an error, the full dump (incl. handles), both free counts, fsck, reclaim audit and cache audit must equal those of the run without it, and every suffix of <=%d further operations (incl. restart) must reply and end identically", depth, len(c09Candidates()), L)
+	r.Rule = fmt.Sprintf("differential, no expected values: on disks with 1..N free data blocks and on a large one, every state reached by <=%d operations of a building alphabet (incl. filling a directory block and filling the disk), every request of a %d-element list of candidates that fail part-way (rename whose target directory cannot grow, create/mkdir/symlink without space or with refused names, writes that run out of blocks after an indirect block, oversized requests, hole-filling reads without space, dead handles, non-empty directories): if it returns an error, the full dump (incl. handles), the inodes and directory entries on the logical disk (kind, link count, generation, size, block count, slots - not times), both free counts, fsck, reclaim audit and cache audit must equal those of the run without it, and every suffix of <=%d further operations (incl. restart) must reply and end identically; the same for three states with the inode table exhausted (32765 files built through the API; suffixes there only in the thorough tier)", depth, len(c09Candidates()), L)
 	var jobs []interface{}
 	bl := c09Build()
 	for _, d := range disks {
@@ -248,6 +307,17 @@ func C09(r *report.Report, tier string) {
 			jobs = append(jobs, c09Arg{Disk: d, Path: append(append([]fsx.Op{}, fullDir...), extra...), L: L})
 		}
 	}
+	// the inode table exhausted (prepared state "inofull": 32765 files): requests that need an inode fail; with one
+	// number given back, the second of two; one job per candidate
+	iL := 0
+	if tier == "thorough" {
+		iL = 1
+	}
+	for _, p := range [][]fsx.Op{{}, {{K: "REMOVE", H: "root/bulk", N: "f16000"}, {K: "MKDIR", H: "root", N: "nd2"}}, {{K: "REMOVE", H: "root/d", N: "x"}, {K: "SYMLINK", H: "root/bulk", N: "y", Target: "t"}, {K: "RESTART"}}} {
+		for ci := range c09Candidates() {
+			jobs = append(jobs, c09Arg{Disk: 4000, Prep: "inofull", Path: p, L: iL, Only: ci + 1})
+		}
+	}
 	failing := map[string]int{}
 	par.Map("c09", jobs, par.Options{Deadline: Deadline}, func(i int, res *par.Result) {
 		if res.Skipped {
@@ -267,7 +337,7 @@ func C09(r *report.Report, tier string) {
 		for _, f := range x.Failing {
 			failing[f]++
 			a := jobs[i].(c09Arg)
-			r.Distinct(fmt.Sprintf("%d|%s|%s", a.Disk, fsx.Hist(a.Path), f))
+			r.Distinct(fmt.Sprintf("%d%s|%s|%s", a.Disk, a.Prep, fsx.Hist(a.Path), f))
 		}
 		for _, v := range x.Viols {
 			r.Violate(*v)
